@@ -3461,10 +3461,15 @@ class WaitMatch(Match):
 
     def convert(self, current_error_handlers: dict):
         sm = self.match_contents.convert(current_error_handlers)
-        for state, trans in sm.transitions_pointing_to(current_error_handlers[ErrorReasons.NO_MATCH], True):
-            trans.to(sm.starting_state).handles_else()  # we make these error handling since that makes semantic sense for the usual use case for a wait node
-            if state == sm.starting_state:
-                trans.fallthrough(False).attach(*self.char_actions)
+        # Only look at the states of the pattern itself: walking the reachable transitions would also follow the override
+        # targets of attached actions (e.g. a break scheduled at the end of the wait) into unrelated parts of the program.
+        for state in sm.states:
+            for trans in state.transitions:
+                if trans.target != current_error_handlers[ErrorReasons.NO_MATCH]:
+                    continue
+                trans.to(sm.starting_state).handles_else()  # we make these error handling since that makes semantic sense for the usual use case for a wait node
+                if state == sm.starting_state:
+                    trans.fallthrough(False).attach(*self.char_actions)
         return sm
 
 class EndMatch(Match):
